@@ -3,6 +3,7 @@ mod framework;
 mod hasher;
 mod rng;
 mod s1_filters;
+mod s3_reservoir;
 
 use framework::*;
 
@@ -44,6 +45,17 @@ fn plan(ctx: &mut CheckCtx, k: f64) {
         "C14" => {
             ctx.run::<s1_filters::S1>(n(150_000));
         }
+        "C05" => {
+            // one evaluation = one (k, n) cell = a batch of sampler runs; the grid is fixed per tier
+            let cells = s3_reservoir::small_grid().len() + if ctx.tier == Tier::Thorough { s3_reservoir::large_grid().len() } else { 0 };
+            ctx.required_probes = vec!["cell_ends_in_reservoir_phase", "cell_ends_at_switch", "cell_ends_in_gap_phase"];
+            ctx.assumptions.push("statistical acceptance at z = 6 (regions) / 6.5 (single positions) against the binomial standard error, plus the allowance (1+ln(n/4k))/k for n > 4k+1; the default VERIF_SEED fixes the batch, other seeds have a false-alarm probability below 1e-5 per batch".into());
+            ctx.run::<s3_reservoir::S3b>(cells as u64);
+        }
+        "C18" => {
+            ctx.required_probes = vec!["phase_fill", "phase_reservoir", "phase_gap", "boundary_fill_to_reservoir", "boundary_reservoir_to_gap"];
+            ctx.run::<s3_reservoir::S3a>(n(400_000));
+        }
         _ => {
             eprintln!("HARNESS ERROR: property {} has no check (not applicable or not built)", ctx.prop);
             std::process::exit(2);
@@ -65,6 +77,8 @@ fn replay(path: &str) -> i32 {
     let scen = doc["scenario"].as_str().unwrap_or("");
     let viols = match scen {
         "S1-filter-node" => replay_case::<s1_filters::S1>(&doc, prop),
+        "S3a-reservoir-invariants" => replay_case::<s3_reservoir::S3a>(&doc, prop),
+        "S3b-reservoir-uniformity" => replay_case::<s3_reservoir::S3b>(&doc, prop),
         _ => {
             eprintln!("HARNESS ERROR: unknown scenario {:?}", scen);
             return 2;
@@ -84,7 +98,7 @@ fn replay(path: &str) -> i32 {
 }
 
 /// Claimed properties (everything `plan` knows).
-const CLAIMED: &[&str] = &["C01", "C12", "C13", "C14"];
+const CLAIMED: &[&str] = &["C01", "C05", "C12", "C13", "C14", "C18"];
 
 /// Proves determinism on a sample: every claimed check is run in separate processes with the same
 /// seed at 1, 5 and 16 workers (and the 16-worker one twice); the event-log hashes (per-run
@@ -137,6 +151,10 @@ fn main() {
     let code = match args[0].as_str() {
         "replay" => replay(args.get(1).map(|s| s.as_str()).unwrap_or_else(|| usage())),
         "selftest-determinism" => selftest_determinism(),
+        "calibrate-c05" => {
+            s3_reservoir::calibrate();
+            0
+        }
         p => {
             let prop = prop_static(p);
             let mut tier = match std::env::var("VERIF_TIER").ok().as_deref() {
